@@ -266,7 +266,7 @@ static Result check_histnew(double mn, double mx, long n, bool periodic, const s
     }
     for (long i = 0; i < n; ++i) {
       long double ex = (long double)before[i] / ((long double)accepted * step_ref);
-      if (fabsl((long double)after[i] - ex) > 8 * eps * fabsl(ex)) {
+      if (fabsl((long double)after[i] - ex) > 8 * eps * fabsl(ex) + 1e-322L) {  // (+ the spacing of subnormal results)
         r.fail("HistogramNew::Normalize/ratios", fmt("bin %ld: %.17g after Normalize, expected %.17Lg", i, after[i], ex));
         return r;
       }
@@ -295,6 +295,12 @@ static Result run_histnew(const json &c) {
   std::vector<VW> vals;
   bool nt = false, will_die = false;
   std::string die_key, die_msg;
+  const int wexp = c.value("wexp", 0);
+  if (wexp < 0 || wexp > 400) {
+    r.discard = true;
+    return r;
+  }
+  if (wexp) r.cls(wexp >= 60 ? "weights-in-tiny-units(<=2^-60)" : "weights-in-small-units");
   for (auto &e : c.at("values")) {
     VW x{e.at(0).get<double>(), e.at(1).get<double>()};
     if (!std::isfinite(x.v) || !std::isfinite(x.w) || std::fabs(x.v) > 1e308) {
@@ -306,6 +312,7 @@ static Result run_histnew(const json &c) {
       r.discard = true;
       return r;
     }
+    x.w = std::ldexp(x.w, -wexp);  // common power-of-two unit factor: sums stay exact
     Pred p = predict(x.v, mn, step_impl, n, periodic);
     if (p == P_WRAP && known(KEY_WRAP)) {
       r.cls(std::string("excluded-known:") + KEY_WRAP);
@@ -459,15 +466,12 @@ static json gen_histnew() {
     vals.push_back({v, dyadic_weight()});
   }
   // weights in physical units (charges of 1.6e-19 C, masses in kg): one common power-of-two factor, all sums stay exact
-  if (rbool(20)) {
-    double f = std::ldexp(1.0, -pick<int>({20, 40, 62, 70, 90, 200}));
-    for (auto &vw : vals) vw[1] = vw[1].get<double>() * f;
-  }
+  int wexp = rbool(20) ? pick<int>({20, 40, 62, 70, 90, 200}) : 0;
   // Normalize is only defined for non-negative weights: a case that asks for it gets them
   const bool normalize = rbool(40);
   if (normalize)
     for (auto &vw : vals) vw[1] = std::fabs(vw[1].get<double>());
-  return json{{"min", mn}, {"max", mx}, {"nbins", n}, {"periodic", periodic}, {"values", vals}, {"normalize", normalize},
+  return json{{"min", mn}, {"max", mx}, {"nbins", n}, {"periodic", periodic}, {"values", vals}, {"normalize", normalize}, {"wexp", wexp},
               {"history", rbool(30) ? ri(1, 2) : 0}, {"via_range", rbool(30)}};
 }
 
